@@ -15,6 +15,7 @@ import (
 	"math"
 	"os"
 	"reflect"
+	"runtime"
 	"strings"
 	"sync"
 	"time"
@@ -252,6 +253,23 @@ func CorruptBytes(valid []byte, mode int) []byte {
 	}
 	out[len(out)-1] ^= 0x01
 	return out
+}
+
+// GoroutinesIn counts the goroutines (other than the caller) that have a frame of a function whose name
+// contains substr.
+func GoroutinesIn(substr string) int {
+	buf := make([]byte, 1<<20)
+	buf = buf[:runtime.Stack(buf, true)]
+	n := 0
+	for i, g := range strings.Split(string(buf), "\n\n") {
+		if i == 0 {
+			continue // the caller
+		}
+		if strings.Contains(g, substr) {
+			n++
+		}
+	}
+	return n
 }
 
 // Sleep lets time pass: natively a real sleep, under the engine the clock advances by at least d.
